@@ -20,6 +20,7 @@ use crate::tokinizer::get_text;
 use crate::tokinizer::get_time;
 use crate::{constants::ConstantType, tokinizer::Tokinizer, types::TokenType};
 use crate::tokinizer::TokenInfo;
+use crate::tokinizer::TokenInfoStatus;
 use crate::formatter::{MINUTE, HOUR, DAY, WEEK, MONTH, YEAR};
 
 pub fn duration_parse(config: &SmartCalcConfig, tokinizer: &Tokinizer, fields: &BTreeMap<String, Rc<TokenInfo>>) -> core::result::Result<TokenType, String> {
@@ -107,6 +108,26 @@ pub fn as_duration(config: &SmartCalcConfig, tokinizer: &Tokinizer, fields: &BTr
 
         /* The source can be a variable, the helper functions resolve it */
         if let Some(duration) = get_duration("source", fields) {
+            /* Durations written side by side are one duration ('a b c as hours'), they are combined before the conversion is applied */
+            if let Some(source) = fields.get("source") {
+                if let Some(position) = tokinizer.token_infos.iter().position(|token| Rc::ptr_eq(token, source)) {
+                    if let Some(previous) = tokinizer.token_infos[..position].iter().rev().find(|token| token.status.get() != TokenInfoStatus::Removed) {
+                        let mut previous_field = BTreeMap::new();
+                        previous_field.insert("previous".to_string(), previous.clone());
+                        let is_duration_word = match previous.token_type.borrow().deref() {
+                            Some(TokenType::Text(text)) => config.word_group.get(&tokinizer.language)
+                                .and_then(|groups| groups.get("duration_group"))
+                                .map_or(false, |words| words.iter().any(|word| word.to_lowercase() == text.to_lowercase())),
+                            _ => false
+                        };
+
+                        if is_duration_word || get_duration("previous", &previous_field).is_some() {
+                            return Err("Durations are not combined yet".to_string());
+                        }
+                    }
+                }
+            }
+
             let seconds = duration.num_seconds().abs() as i64;
             
             return match constant_type {
